@@ -7,7 +7,10 @@ package main
 
 import (
 	"bytes"
+	"encoding/json"
 	"fmt"
+	"io"
+	"os"
 	"reflect"
 	"sort"
 	"strconv"
@@ -351,31 +354,9 @@ func cmdForms(args []string) {
 		tw.Emit(Rec{"ev": "entry", "id": id, "name": fmt.Sprintf("statement %d (%s)", i+1, path), "gostring": g, "render": r, "withfile": w})
 	}
 	// ... and for LARGE values: a block of several thousand statements (more than 64 KiB of output), a statement of
-	// several hundred items, a call nested a hundred levels deep
-	{
-		big := []*jen.Statement{}
-		blk := []jen.Code{}
-		for i := 0; i < 4000; i++ {
-			blk = append(blk, jen.If(jen.Id("x").Op(">").Lit(i)).Block(jen.Return(jen.Lit(i))))
-		}
-		big = append(big, jen.Func().Id("big").Params(jen.Id("x").Int()).Int().Block(blk...))
-		sum := jen.Id("a0")
-		for i := 1; i < 400; i++ {
-			sum.Op("+").Id("a" + strconv.Itoa(i))
-		}
-		big = append(big, jen.Id("total").Op(":=").Add(sum))
-		deep := jen.Id("leaf")
-		for i := 0; i < 100; i++ {
-			deep = jen.Id("f" + strconv.Itoa(i)).Call(deep)
-		}
-		big = append(big, deep)
-		for i, s := range big {
-			id++
-			tw.Traces++
-			g, r, w := renderAll(s)
-			tw.Emit(Rec{"ev": "entry", "id": id, "name": fmt.Sprintf("large value %d", i+1), "gostring": Hash([]byte(g)), "render": Hash([]byte(r)), "withfile": Hash([]byte(w))})
-		}
-	}
+	// several hundred items, a call nested a hundred levels deep - each in a child process (crash containment, common.go)
+	runContained(tw, "forms-large", []json.RawMessage{json.RawMessage("0"), json.RawMessage("1"), json.RawMessage("2")}, id+1, 1)
+	id += 3
 	// the callback of a Group-method ...Func form runs INSIDE the constructing call, i.e. before the new statement is
 	// appended to the group: a callback that also appends to the enclosing group ("hoists" a declaration) gives the same
 	// order as building the two statements one after the other
@@ -588,4 +569,50 @@ func (t *FormTree) MarshalJSON() ([]byte, error) {
 	}
 	b.WriteString("]}")
 	return b.Bytes(), nil
+}
+
+// largeValue: the i-th of the large values whose entry points must agree
+func largeValue(i int) *jen.Statement {
+	switch i {
+	case 0:
+		blk := []jen.Code{}
+		for i := 0; i < 4000; i++ {
+			blk = append(blk, jen.If(jen.Id("x").Op(">").Lit(i)).Block(jen.Return(jen.Lit(i))))
+		}
+		return jen.Func().Id("big").Params(jen.Id("x").Int()).Int().Block(blk...)
+	case 1:
+		sum := jen.Id("a0")
+		for i := 1; i < 400; i++ {
+			sum.Op("+").Id("a" + strconv.Itoa(i))
+		}
+		return jen.Id("total").Op(":=").Add(sum)
+	}
+	deep := jen.Id("leaf")
+	for i := 0; i < 100; i++ {
+		deep = jen.Id("f" + strconv.Itoa(i)).Call(deep)
+	}
+	return deep
+}
+
+func cmdFormsLarge(args []string) {
+	// usage: forms-large <trace part> <stats part> <first id>   (the indices of the values as a JSON array on stdin)
+	tw := NewTraceWriter(args[0])
+	id, _ := strconv.Atoi(args[2])
+	var idx []int
+	in, _ := io.ReadAll(os.Stdin)
+	if err := json.Unmarshal(in, &idx); err != nil {
+		fatal(err)
+	}
+	for _, i := range idx {
+		tw.Traces++
+		var s *jen.Statement
+		built := safely(func() ([]byte, error) { s = largeValue(i); return nil, nil })
+		g, r, w := "error:build", "error:build", "error:build"
+		if built.status == "nil" {
+			g, r, w = renderAll(s)
+		}
+		tw.Emit(Rec{"ev": "entry", "id": id, "name": fmt.Sprintf("large value %d", i+1), "gostring": Hash([]byte(g)), "render": Hash([]byte(r)), "withfile": Hash([]byte(w))})
+		id++
+	}
+	tw.CloseChild(args[1])
 }
